@@ -15,7 +15,7 @@ fn main() {
         for t in 0..threads {
             ths.push((0..per).map(|j| COp::Insert(16 + (t * per + j) as u16)).collect::<Vec<_>>());
         }
-        let prog = Prog { cfg: CCfg { hmode: HMode::Mix, capacity: 0, batch: 8, gmode: GuardMode::PerOp }, filler: 0, hot_init: vec![], threads: ths };
+        let prog = Prog { cfg: CCfg { hmode: HMode::Mix, capacity: 0, batch: 8, gmode: GuardMode::PerOp, hot_pat: 0 }, filler: 0, hot_init: vec![], threads: ths };
         let seed = fvh::runner::splitmix(seed0 * 1_000_003 + it);
         let gap = [2u32, 5, 12, 30, 80][(it % 5) as usize];
         let spec = SchedSpec { random: Some((seed, gap)), step_budget: 2_000_000, ..Default::default() };
